@@ -122,7 +122,7 @@ func (commander *Commander) exec(ctx context.Context, parameters Parameters, scr
 		if err != nil {
 			return nil, nil, errors.Wrap(err, "locking accounts for tx processing")
 		}
-		unlock(ctx)
+		defer unlock(ctx)
 
 		err = m.ResolveBalances(ctx, commander.store)
 		if err != nil {
@@ -150,7 +150,16 @@ func (commander *Commander) exec(ctx context.Context, parameters Parameters, scr
 			log = log.WithIdempotencyKey(parameters.IdempotencyKey)
 		}
 
-		return executionContext.AppendLog(ctx, log)
+		chainedLog, done, err := executionContext.AppendLog(ctx, log)
+		if err != nil {
+			return nil, nil, err
+		}
+		// The account locks and the reference reservation are released by the deferred calls
+		// above: wait until the log is persisted, otherwise a concurrent request could read
+		// balances (or look up the reference) which do not include this transaction yet.
+		<-done
+
+		return chainedLog, done, nil
 	})
 }
 
